@@ -10,7 +10,7 @@ from ..model import Model, numel
 from ..seeds import digest
 from ..shrinkspec import spec_candidates
 from ..spec import gen_mtl, gen_program, pick_outputs
-from ..world import EPS, World, compare, expect_backward, expect_mtl, gen_sched, run_call
+from ..world import spec_eps, EPS, World, compare, expect_backward, expect_mtl, gen_sched, run_call
 from . import c02 as C02
 
 ID = "C05"
@@ -67,7 +67,18 @@ def generate(rng, tier, index):
     agg_history = []
     if call["agg"]["kind"] in ("Sum", "Mean") and rng.random() < 0.6:
         agg_history = [[rng.randint(1, 9), rng.randint(1, 5)] for _ in range(rng.choice([1, 2, 3]))]
-    return {"spec": spec, "roles": roles, "call": call, "sched": gen_sched(rng, spec), "twin_sched": gen_sched(rng, spec), "pre_grads": gen_pre_grads(rng, spec), "agg_history": agg_history}
+    pre = gen_pre_grads(rng, spec)
+    # F8 variant: ONE tensor installed as the .grad of two same-shaped parameters (tied accumulators, bucket
+    # views): torch.autograd accumulates in place, so both see both contributions
+    ties = []
+    rgl = [leaf for leaf in spec["leaves"] if leaf["rg"]]
+    if rng.random() < 0.25:
+        for i in range(len(rgl)):
+            for j in range(i + 1, len(rgl)):
+                if rgl[i]["shape"] == rgl[j]["shape"] and not ties:
+                    ties.append([rgl[i]["name"], rgl[j]["name"]])
+                    pre.setdefault(rgl[i]["name"], [0.25 * (k % 5) for k in range(numel(rgl[i]["shape"]))])
+    return {"spec": spec, "roles": roles, "call": call, "sched": gen_sched(rng, spec), "twin_sched": gen_sched(rng, spec), "pre_grads": pre, "agg_history": agg_history, "tied_grads": ties}
 
 
 def _weights_split(world, names, w):
@@ -83,7 +94,7 @@ def _weights_split(world, names, w):
 
 def execute(scn):
     spec, call = scn["spec"], scn["call"]
-    eps = EPS[spec["dtype"]]
+    eps = spec_eps(spec)
     model = Model(spec)
     stats, events, viols, sets = {}, [], [], {}
     from ..world import require_valid
@@ -93,6 +104,11 @@ def execute(scn):
     twin = World(spec, scn["twin_sched"], twin_offset=1 << 20)
     apply_pre_grads(world, scn.get("pre_grads", {}))
     apply_pre_grads(twin, scn.get("pre_grads", {}))
+    for a, b in scn.get("tied_grads", []):
+        for w in (world, twin):
+            if a in w.t and b in w.t and w.t[a].grad is not None and w.t[a].shape == w.t[b].shape:
+                w.t[b].grad = w.t[a].grad  # the very same tensor object
+                stats["reach.tied_grad_accumulators"] = 1
 
     from ..aggs import make_agg
 
@@ -149,7 +165,7 @@ def execute(scn):
         stats["twin_calls"] = len(call["losses"]) + 2
         # one-stage form on a third instantiation when no shared leaf reaches a loss around the features
         bypass = any(s in cutmodel.values[loss].anc for s in exp["shared"] for loss in call["losses"])
-        if shared and not bypass:
+        if shared and not bypass and not scn.get("tied_grads"):
             stats["reach.one_stage_twin"] = 1
             third = World(spec, scn["twin_sched"], twin_offset=1 << 21)
             apply_pre_grads(third, scn.get("pre_grads", {}))
